@@ -641,8 +641,10 @@ pub struct Layout {
     /// 0: canonical (lower case, single spaces, one statement per line, no comments)
     /// 1: varied separators and case
     /// 2: varied + comments (ASCII and multi-byte), blank lines, own-line labels, CRLF, indentation
+    /// 3: like 2, and a third of the separators inside a statement hold a line break (the statement
+    ///    goes on on the next line)
     pub style: u8,
-    /// terminate with `.end` (followed by text that must be ignored when style == 2)
+    /// terminate with `.end` (followed by text that must be ignored when style >= 2)
     pub end: bool,
 }
 
@@ -741,16 +743,16 @@ pub struct Rendered {
 pub fn render(p: &Program, lay: Layout) -> Rendered {
     let mut rng = Rng(lay.seed ^ 0xA5A5_5A5A_1234_5678);
     let style = lay.style;
-    let nl = if style == 2 && rng.chance(1, 4) { "\r\n" } else { "\n" };
+    let nl = if style >= 2 && rng.chance(1, 4) { "\r\n" } else { "\n" };
     let mut out = String::new();
     let mut spans = Vec::with_capacity(p.lines.len());
-    if style == 2 && rng.chance(1, 3) {
+    if style >= 2 && rng.chance(1, 3) {
         out.push_str(COMMENTS[rng.below(COMMENTS.len() as u64) as usize]);
         out.push_str(nl);
     }
     let nlines = p.lines.len();
     for (i, line) in p.lines.iter().enumerate() {
-        if style == 2 {
+        if style >= 2 {
             while rng.chance(1, 6) {
                 if rng.chance(1, 2) {
                     out.push_str("  ");
@@ -765,6 +767,9 @@ pub fn render(p: &Program, lay: Layout) -> Rendered {
         let sep = |rng: &mut Rng| -> &'static str {
             if style == 0 {
                 " "
+            } else if style == 3 && rng.chance(1, 3) {
+                // the statement goes on on the next line
+                ["\n    ", ",\n\t", " ,\n", "\n", " \n  , "][rng.below(5) as usize]
             } else {
                 SEPS[rng.below(SEPS.len() as u64) as usize]
             }
@@ -773,13 +778,13 @@ pub fn render(p: &Program, lay: Layout) -> Rendered {
             out.push_str(name);
             if *colon {
                 out.push(':');
-                if style == 2 && rng.chance(1, 4) {
+                if style >= 2 && rng.chance(1, 4) {
                     out.push_str(nl);
                     out.push_str("    ");
                 } else if style == 0 || rng.chance(2, 3) {
                     out.push(' ');
                 }
-            } else if style == 2 && rng.chance(1, 4) {
+            } else if style >= 2 && rng.chance(1, 4) {
                 out.push_str(nl);
                 out.push('\t');
             } else {
@@ -809,7 +814,7 @@ pub fn render(p: &Program, lay: Layout) -> Rendered {
                 spans.push(Some((start, out.len())));
             }
         }
-        if style == 2 && rng.chance(1, 3) {
+        if style >= 2 && rng.chance(1, 3) {
             out.push_str([" ", "\t", "   "][rng.below(3) as usize]);
             out.push_str(COMMENTS[rng.below(COMMENTS.len() as u64) as usize]);
         } else if style >= 1 && rng.chance(1, 8) {
@@ -823,7 +828,7 @@ pub fn render(p: &Program, lay: Layout) -> Rendered {
     if lay.end {
         out.push_str(&recase(".end", &mut rng, style));
         out.push_str(nl);
-        if style == 2 {
+        if style >= 2 {
             out.push_str("; trailing comment after .end");
             out.push_str(nl);
         }
